@@ -4,6 +4,8 @@ import WebpVerif.Lemmas.BitReader
 import WebpVerif.Lemmas.LLoop
 import Mathlib.Tactic.IntervalCases
 import Mathlib.Tactic.Linarith
+import WebpVerif.Lemmas.EncHuffCodes
+import WebpVerif.Lemmas.PrefixFree
 
 /-!
 # C01 — VP8L decoding matches the lossless specification for every valid stream
@@ -163,5 +165,35 @@ def exOps : List LLoop.Op := [.lit 7, .lit 9, .lit 11, .back 7 3, .lit 4, .back 
 example : LLoop.cons exCfg 16 0 0 exOps = true ∧
     LLoop.decode exCfg (Array.replicate 15 0) exOps = LLoop.decode exCfg (Array.replicate 15 99) exOps ∧
     LLoop.decode exCfg (Array.replicate 15 0) exOps = LLoop.specDecode exCfg (Array.replicate 15 99) exOps := by decide +kernel
+
+/-! ### the symbol decoder of the specification on complete codes -/
+
+/-- **Prefix-code symbols: never rejected, uniquely decoded.**  For EVERY length vector that is a
+    complete code (all lengths ≤ 15, Kraft sum exactly 2^15 - any alphabet size, any shape) and
+    EVERY string of at least 15 bits, the specification's canonical symbol decoder returns a
+    symbol, and the bits it consumed are exactly that symbol's canonical code word (MSB first);
+    by `C14.codes_decodable` / `Prefix.decodeSym_canonical` no other symbol's word is a prefix of
+    the string.  The crate's `HuffmanTree` (two-level table + secondary tree) is compared with this
+    decoder on generated length vectors and bit strings in every run. -/
+theorem symbol_decoder_total (lengths : Array Nat) (hall : ∀ l ∈ lengths.toList, l ≤ 15)
+    (hk : Prefix.kraft lengths.toList 15 = 2 ^ 15) (bits : List Nat) (hb : ∀ b ∈ bits, b < 2) (hlen : 15 ≤ bits.length) :
+    ∃ s rest taken, Prefix.decodeSym lengths.toList 15 0 0 bits = some (s, rest) ∧ bits = taken ++ rest ∧
+      lengths.toList.getD s 0 = taken.length ∧
+      Prefix.canonicalCode lengths.toList s = some (taken.foldl (fun acc b => 2 * acc + b) 0) := by
+  have hend : Prefix.blockEnd lengths.toList 15 = 2 ^ 15 := by
+    have h1 : Prefix.nextCode lengths.toList 16 = Prefix.blockEnd lengths.toList 15 * 2 := rfl
+    have h2 : Prefix.nextCode lengths.toList 16 = 2 * Prefix.kraft lengths.toList 15 := by
+      rw [← EncHuff.nc_nextCode, EncHuff.nc_kraft, EncHuff.kraftUpTo_kk, ← EncHuff.kraft_kk _ _ hall]
+    rw [hk] at h2
+    omega
+  obtain ⟨s, rest, hdec⟩ := Prefix.decodeSym_total lengths.toList 15 (by decide) hend 15 0 0 bits (by omega) (by omega) hb
+    (by decide) (Nat.le_of_eq rfl)
+  obtain ⟨taken, e1, e2, e3⟩ := Prefix.decodeSym_sound lengths.toList 15 0 0 bits s rest hdec
+  exact ⟨s, rest, taken, hdec, e1, by rw [e2, Nat.zero_add], e3⟩
+
+-- non-vacuity: the complete code {1, 2, 3, 3} (with an unused symbol) on sixteen bits
+example : Prefix.kraft [1, 0, 2, 3, 3] 15 = 2 ^ 15 ∧
+    Prefix.decodeSym [1, 0, 2, 3, 3] 15 0 0 [1, 1, 0, 1, 1, 1, 1, 1, 1, 1, 1, 1, 1, 1, 1, 1] = some (3, [1, 1, 1, 1, 1, 1, 1, 1, 1, 1, 1, 1, 1]) := by
+  decide
 
 end C01
